@@ -90,7 +90,7 @@ namespace OpenMEEG {
             const size_t j = tkelmt.first.second;
             out(i,j) += tkelmt.second;
         }
-        for (const auto& tkelmt : m_tank) {
+        for (const auto& tkelmt : mat.m_tank) {
             const size_t i = tkelmt.first.first;
             const size_t j = tkelmt.first.second;
             out(i,j) += tkelmt.second;
